@@ -33,3 +33,12 @@ package router
 // both kinds of value a source returns (a physical receiver object, a logical receiver name) are accepted unchanged
 //@ ensures isptrto(v, "Recv") ==> result1 && isptrto(result0, "Recv")
 //@ ensures isstring(v) ==> result1 && isstring(result0) && strval(result0) == strval(v)
+
+// Every configured tag source routes by its own key (C19: first matching source wins, each by the tag it was
+// configured with): the configuration object handed to a source is decoded for that source alone, it is not
+// an object an earlier source already holds (which a later decode would overwrite under its feet).
+//@ func New
+//@ props C19
+//@ requires config != nil
+//@ loop-complete 2
+//@ site loop 1 call TagSource assert config != nil ==> iterfresh(config)
